@@ -216,11 +216,13 @@ class Representations(Lemma):
 
 
 
-def native_mean_replay():
+def native_mean_replay(accessor_first=False):
     from contracts import battery
     from rpylib.grid.spatial import CTMCUniformGrid, CTMCGridGeometric
     worst = None
     for name, m in battery.models().items():
+        if accessor_first:
+            m.levy_triplet.center_drift()         # history: a drift accessor evaluated on the caller's (untruncated) triplet
         for grid in (CTMCUniformGrid(h=0.05, model=m), CTMCGridGeometric(h=0.1, model=m, nb_of_points_on_each_side=5)):
             d, info = battery.chain_mean_defect(m, grid)
             info.update(model=name, grid=type(grid).__name__, defect=d)
@@ -347,7 +349,9 @@ class ChainConstructor(FunctionContract):
     integrals and the truncated process keeps its mean), and adds the central-cell variance to the squared diffusion."""
     prop = "C04"
     target = MC + "MarkovChainProcess.__init__"
-    cases = REPS
+    # "...|accessor": a drift accessor of the caller's triplet (center_drift) was evaluated BEFORE the chain is built -- whatever
+    # it computed for the untruncated measure must not be reused for the truncated copy
+    cases = REPS + ("ZERO|accessor", "CENTER|accessor", "TILDE|accessor")
 
     def __init__(self):
         self.name = "MarkovChainProcess.__init__"
@@ -363,6 +367,7 @@ class ChainConstructor(FunctionContract):
             lambda it, f, b: (ctx.PATH.ghost.update(sampling_args=b), None)[1]
 
     def setup(self, vc, r0):
+        r0, _, history = r0.partition("|")
         grid, ax, h, o = wf_grid(vc)
         basic_axioms(vc)
         fv, a, sigma, lam = vc.bool("finite_variation"), vc.real("a"), vc.real("sigma"), vc.real("intensity")
@@ -370,6 +375,9 @@ class ChainConstructor(FunctionContract):
         nu = mu_measure(vc)
         R = lambda n: vc.enum(LM + "LevyRepresentation", n)
         trip = vc.new(LM + "LevyTriplet", sigma, nu, a, R(r0))
+        if history:
+            vc.ghost.update(fv=fv)
+            vc.method(trip, "center_drift")
         model = vc.obj(LM + "LevyModel", levy_triplet=trip, _original_drift=a)
         vc.ghost.update(fv=fv, lam=lam, a=a, r0=r0, nu=nu, model=model, sigma=sigma, ax=ax, h=h, grid=grid)
         method = vc.enum("rpylib.distribution.sampling:SamplingMethod", "INVERSION")
@@ -418,7 +426,7 @@ class ChainConstructor(FunctionContract):
             bad = t.nu is not nu0 or isinstance(t.nu, TruncatedLevyMeasure) or t.a != a0 or t.representation != rep0
             return (bool(bad), {"callers_measure_after_building_a_chain": type(t.nu).__name__, "drift": [a0, t.a], "representation": [rep0.name, t.representation.name]})
         if "mean" in clause or "drift" in clause or "truncated" in clause:
-            return native_mean_replay()
+            return native_mean_replay(accessor_first="|" in str(case))
         return None
 
 
